@@ -250,7 +250,7 @@ def cli_cases(draw):
     # the CLI takes integers only: a rate below 1 must be spelled as a negative reciprocal
     free = draw(st.sampled_from(["none", "b0", "b1", "b2"]))
     setting = {"rate": s[0], "blockshape": list(s[1]), "free": free, "rate_as": "neg"}
-    shape = draw(gen.shape3d(setting["blockshape"], max_voxels=150_000, max_traces=600))
+    shape = draw(gen.shape3d(setting["blockshape"], max_voxels=150_000, max_traces=600, magnitudes="lines"))
     return {"setting": setting, "shape": list(shape), "values": draw(gen.values_spec),
             "fmt": draw(st.sampled_from([1, 5])), "ext": 0, "reader": draw(st.sampled_from(["segyio", "reduced"])),
             "il": [1, 1], "xl": [1, 1]}
@@ -265,7 +265,7 @@ def zgy_cases(draw):
         setting = {"rate": s[0], "blockshape": list(s[1]), "free": "none", "rate_as": "neg"}
     else:
         setting = draw(gen.setting_spelled())
-    shape = draw(gen.shape3d(setting["blockshape"], max_voxels=150_000, max_traces=800))
+    shape = draw(gen.shape3d(setting["blockshape"], max_voxels=150_000, max_traces=800, magnitudes="lines"))
     ax = lambda: [draw(st.one_of(st.integers(-50, 5000), st.integers(-10 ** 6, 10 ** 6))),
                   draw(st.sampled_from([1, 1, -1, 2, -3, 5, 100]))]
     return {"setting": setting, "shape": list(shape), "cli": cli, "il": ax(), "xl": ax(),
@@ -277,7 +277,7 @@ def zgy_cases(draw):
 def vds_cases(draw):
     """Generated VDS sources (openvds writer, laid out as SEGYImport does: Amplitude, Trace, SEGYTraceHeader)."""
     setting = draw(gen.setting_spelled())
-    shape = draw(gen.shape3d(setting["blockshape"], max_voxels=150_000, max_traces=800))
+    shape = draw(gen.shape3d(setting["blockshape"], max_voxels=150_000, max_traces=800, magnitudes="lines"))
     ax = lambda: [draw(st.one_of(st.integers(-50, 5000), st.integers(-10 ** 6, 10 ** 6))), draw(st.sampled_from([1, 1, 2, 3, 5, 100]))]
     return {"setting": setting, "shape": list(shape), "il": ax(), "xl": ax(), "values": draw(gen.values_spec),
             "mode": draw(st.sampled_from(["heuristic", "thorough", "strip"])),
